@@ -200,7 +200,8 @@ def check_post(e: Engine, c: Contract, st: State, val: SV, entry: State):
             val = e.coerce(val, rty)
         except Unsupported:
             pass
-    bound = {}
+    # in postconditions a parameter name denotes the ARGUMENT (its entry value), also when the body rebinds the name
+    bound = {pn: entry.store[pn] for pn in st.rebound if pn in entry.store and not pn.startswith("ghost.") and pn not in c.modifies}
     # ghost lemma steps that need the returned value
     from . import loops
     if any(g.anchor == "at:return" for g in e.reg.ghost.get(e.fn.qname, [])):
